@@ -21,6 +21,8 @@ REPO = os.environ.get("VERIF_REPO", "/repo")
 LEAN = os.path.join(VERIF, "lean")
 WORKROOT = os.path.join(VERIF, ".work")
 DRIVER = os.path.join(LEAN, ".lake", "build", "bin", "kmdriver")
+LEANJ = os.path.join(VERIF, "lean-judge")
+JUDGE = os.path.join(LEANJ, ".lake", "build", "bin", "kmjudge")
 ALLOWED_AXIOMS = {"propext", "Classical.choice", "Quot.sound"}
 
 GOENV = dict(os.environ)
@@ -52,6 +54,7 @@ class Ctx:
         self.notes = []
         self.coverage = {}
         self.assumptions = []
+        self.judge_bin = None     # set by prove(): the driver built against the committed facts snapshot
 
     def cleanup(self):
         shutil.rmtree(self.work, ignore_errors=True)
@@ -222,6 +225,62 @@ def prop_theorems(prop):
     return names
 
 
+def _sync_dir(src, dst):
+    """make dst an exact copy of src (content-compared, so unchanged files keep their mtime)"""
+    os.makedirs(dst, exist_ok=True)
+    want = set()
+    for root, _, files in os.walk(src):
+        rel = os.path.relpath(root, src)
+        for f in files:
+            want.add(os.path.normpath(os.path.join(rel, f)))
+    for root, _, files in os.walk(dst):
+        rel = os.path.relpath(root, dst)
+        for f in files:
+            if os.path.normpath(os.path.join(rel, f)) not in want:
+                os.remove(os.path.join(root, f))
+    for r in want:
+        a, b = os.path.join(src, r), os.path.join(dst, r)
+        os.makedirs(os.path.dirname(b), exist_ok=True)
+        if not os.path.exists(b) or open(a, "rb").read() != open(b, "rb").read():
+            shutil.copyfile(a, b)
+
+
+def build_judge(ctx):
+    """kmjudge = the driver of lean/ (Model, Driver, Main copied verbatim) built against lean-judge/KM/Gen, the
+    committed snapshot of the facts regenerated from the last validated tree: the predicates the implementation is
+    judged by do not move with the source under test. Returns the binary to use for `judge` mode."""
+    snap = os.path.join(LEANJ, "KM", "Gen")
+    if not os.path.isdir(snap):
+        ctx.notes.append("no facts snapshot (lean-judge/KM/Gen): judge runs on the regenerated facts")
+        return DRIVER
+    with Lock("leanjudge"):
+        _sync_dir(os.path.join(LEAN, "KM", "Model"), os.path.join(LEANJ, "KM", "Model"))
+        _sync_dir(os.path.join(LEAN, "KM", "Driver"), os.path.join(LEANJ, "KM", "Driver"))
+        a, b = os.path.join(LEAN, "Main.lean"), os.path.join(LEANJ, "Main.lean")
+        if not os.path.exists(b) or open(a).read() != open(b).read():
+            shutil.copyfile(a, b)
+        rc, out = sh(["lake", "build", "kmjudge"], cwd=LEANJ, timeout=1500)
+    differs = []
+    gen = os.path.join(LEAN, "KM", "Gen")
+    names = sorted(set(f for f in os.listdir(snap) if f.endswith(".lean")) | set(f for f in os.listdir(gen) if f.endswith(".lean")))
+    for f in names:
+        x, y = os.path.join(snap, f), os.path.join(gen, f)
+        if not (os.path.exists(x) and os.path.exists(y)) or \
+                strip_comments(open(x).read()).split() != strip_comments(open(y).read()).split():
+            differs.append(f)
+    ctx.coverage["judge_facts_snapshot"] = {"pinned_at": (open(os.path.join(snap, "PINNED_AT")).read().strip()
+                                                          if os.path.exists(os.path.join(snap, "PINNED_AT")) else "?"),
+                                            "regenerated_facts_differ_in": differs}
+    if rc != 0:
+        # the snapshot is stale with respect to the model (new fact the model needs): say so, fall back
+        ctx.notes.append("kmjudge does not build against the facts snapshot (run bin/pin-gen.sh on a validated tree); "
+                         "judge falls back to the regenerated facts: " + out[-600:])
+        ctx.coverage["judge_facts_snapshot"]["built"] = False
+        return DRIVER
+    ctx.coverage["judge_facts_snapshot"]["built"] = True
+    return JUDGE
+
+
 def prove(ctx, extra_modules=()):
     """Build the property module and audit axioms. Fills ctx.coverage proof keys.
     Returns True when every obligation is discharged."""
@@ -231,6 +290,7 @@ def prove(ctx, extra_modules=()):
     if not ok_drv:
         ctx.broken.append("lake build kmdriver (model/driver no longer compiles against regenerated KM/Gen)")
         ctx.notes.append(out_drv[-3000:])
+    ctx.judge_bin = build_judge(ctx)
     ok, out = lake_build(["KM.Props." + prop] + list(extra_modules))
     names = prop_theorems(prop)
     discharged = 0
@@ -358,7 +418,8 @@ def run_harness(ctx, pkg, test, ops, timeout=900, extra_env=None, race=False, ta
 
 
 def run_driver(ctx, mode, lines, prop=None, timeout=600):
-    p = subprocess.run([DRIVER, prop or ctx.prop, mode], input="\n".join(lines) + "\n",
+    binary = ctx.judge_bin if (mode == "judge" and getattr(ctx, "judge_bin", None)) else DRIVER
+    p = subprocess.run([binary, prop or ctx.prop, mode], input="\n".join(lines) + "\n",
                        stdout=subprocess.PIPE, stderr=subprocess.PIPE, text=True, timeout=timeout)
     if p.returncode != 0:
         raise RuntimeError("kmdriver %s %s failed: %s" % (prop or ctx.prop, mode, p.stderr[-500:]))
